@@ -66,3 +66,309 @@ NOT_APPLICABLE = {
     "C34": "JSON/C-string FFI conversion and statement classification over parsed ASTs (strings + heap); nothing bounded and integer-like to encode.",
     "C35": "Deadlock freedom is a property of lock acquisition orders across threads; Kani has no concurrency support, and lock-order extraction is static analysis outside this technique family.",
 }
+
+_Q = "kani/query/evaluator.rs"
+PROPS["C20"] = {
+    "title": "ORDER BY sorts and SKIP/LIMIT slice it",
+    "kani": [(_Q, r"^c20_")],
+    "e2": [],
+    "functions_encoded": ["nervusdb_query::evaluator::order_compare", "evaluator_compare::order_compare_non_null",
+                          "evaluator_compare::compare_f64_with_nan", "evaluator_compare::value_order_rank"],
+    "bounds": {"values": "all i64 / f64 (incl. NaN, +-inf, +-0, subnormals) / bool / DateTime bit patterns per shape triple",
+               "shapes": "kind triples over {Int, Float, NaN, Bool, DateTime, Null} listed in coverage.samples"},
+    "stubs": [],
+    "assumptions": ["slice::sort_by (stable merge sort) and Iterator::skip/take are trusted std"],
+    "outside_claim": ["strings (compare_strings_with_temporal parses with chrono), lists, maps, paths, nodes/relationships",
+                      "multi-key ORDER BY loop, DESC reversal, SKIP/LIMIT window arithmetic (E2 obligation O2)"],
+    "level_text": "Bounded model checking (Kani/CBMC) of the real comparator behind ORDER BY: for every listed kind triple and all "
+                  "payload bit patterns, order_compare is reflexive, antisymmetric, transitive, Equal is an equivalence, kinds are "
+                  "ranked as documented, NaN sorts above numbers, Null last, and Int vs Float follows the exact numeric order. "
+                  "Partial: decides the comparator laws a sort needs on scalar kinds, not the whole ORDER BY pipeline.",
+    "level_note": "Trusted: Kani/CBMC/CaDiCaL, std sort. Strings, collections and graph values are outside the claim.",
+    "design_ref": "DESIGN.md section 3, C20",
+}
+PROPS["C23"] = {
+    "title": "Expression evaluation obeys Cypher laws",
+    "kani": [(_Q, r"^c23_")],
+    "e2": [],
+    "functions_encoded": ["evaluator_equality::cypher_equals", "evaluator_compare::compare_values",
+                          "evaluator_compare::compare_numbers_for_range", "evaluator_arithmetic::{add,subtract,multiply,divide}_values",
+                          "evaluator_numeric::{numeric_binop,numeric_div,numeric_mod}"],
+    "bounds": {"values": "all i64 / f64 / bool bit patterns per shape", "shapes": "see coverage.samples",
+               "multiplication": "quick: one factor 16-bit; thorough: full 64x64",
+               "division/remainder": "divisor in {0,-1,1} with a full-range dividend; both operands symbolic on 8 bit (quick) / "
+               "16 bit (thorough); full-width symbolic dividers attempted only (64/128-bit dividers do not finish in CBMC)"},
+    "stubs": [],
+    "assumptions": ["NaN excluded from the equivalence laws (as in the property)"],
+    "outside_claim": ["strings, lists, maps, temporal/duration arithmetic, powf, unary minus, float rounding",
+                      "AND/OR/XOR/NOT truth tables (E2 obligation O4)"],
+    "level_text": "Bounded model checking (Kani/CBMC) of the real equality, comparison and arithmetic kernels: = is reflexive, "
+                  "symmetric, transitive on non-NaN scalars incl. Int/Float mixes over the full 64-bit ranges; <,<=,>,>= agree with "
+                  "= , with each other and with the ORDER BY order; null propagates; + - * follow one overflow rule (exact Int if it "
+                  "fits, else Float), x/0 and x%0 are null, MIN/-1 and MIN%-1 do not panic. Partial: scalar kernels only.",
+    "level_note": "Trusted: Kani/CBMC/CaDiCaL incl. its IEEE-754 float model. Strings/collections/temporal values outside.",
+    "design_ref": "DESIGN.md section 3, C23",
+}
+PROPS["C15"] = {
+    "title": "Indexes never change query results",
+    "kani": [(_Q, r"^c15_")],
+    "e2": [],
+    "functions_encoded": ["evaluator_equality::cypher_equals", "nervusdb_storage::index::ordered_key::encode_ordered_value"],
+    "bounds": {"values": "all i64 / f64 (non-NaN) / bool pairs", "shapes": "(Int,Int) (Float,Float) (Bool,Bool) (Int,Float)"},
+    "stubs": [],
+    "assumptions": ["index lookup = prefix match on enc(value) (prefix-freeness is C27)"],
+    "outside_claim": ["index maintenance at commit, back-fill, catalog, B-tree contents (C26), planner's choice of IndexSeek",
+                      "strings (C27 covers key order; Cypher string equality is byte equality)"],
+    "level_text": "Bounded model checking (Kani/CBMC) that the index lookup key agrees with Cypher equality on scalars: "
+                  "cypher_equals(a,b)=true iff enc(a)=enc(b), over all 64-bit payloads. Partial: key/equality agreement only; "
+                  "the Int-vs-Float disagreement (1 = 1.0 but different keys) is a recorded known finding.",
+    "level_note": "Trusted: Kani/CBMC/CaDiCaL. The seek fallback rule (E2) and index maintenance are not decided here.",
+    "design_ref": "DESIGN.md section 3, C15",
+}
+PROPS["C21"] = {
+    "title": "Aggregates agree with their definitions",
+    "kani": [("kani/query/core_types.rs", r"^c21_")],
+    "e2": ["c21"],
+    "functions_encoded": ["<executor::core_types::Value as Hash>::hash", "derived <Value as PartialEq>::eq",
+                          "projection_sort::execute_aggregate::{closure#1} (Sum arm, entered arm-locally)"],
+    "bounds": {"values": "all payload bit patterns for Int, Float (incl. NaN, +-0), Bool, DateTime, NodeId pairs", "unwind": 34},
+    "stubs": ["Hasher = transparent byte collector (32 bytes), so equal hash means equal byte stream fed to any hasher"],
+    "assumptions": [],
+    "outside_claim": ["avg/min/max/collect/percentiles, DISTINCT variants, strings/lists/maps as grouping keys",
+                      "SumDistinct arm (same code shape, not entered arm-locally), float rounding of sums"],
+    "level_text": "Bounded model checking (Kani/CBMC) of the grouping-key contract (keys equal under == feed identical bytes to the "
+                  "hasher: one group per distinct key) and path-wise symbolic execution (z3) of the Sum arm of the aggregate closure "
+                  "over <= 2 (quick) / 3 (thorough) rows of symbolic kind: a sum of Ints is the exact sum or a Float, never a wrapped "
+                  "Int. Partial: grouping keys and sum arithmetic only.",
+    "level_note": "Trusted: Kani/CBMC/CaDiCaL; HashMap itself (std) is trusted given a consistent Hash/Eq.",
+    "design_ref": "DESIGN.md section 3, C21",
+}
+PROPS["C33"] = {
+    "title": "Execution limits fail cleanly",
+    "kani": [("kani/query/query_api.rs", r"^c33_"), ("kani/query/plan_mid.rs", r"^c33_")],
+    "e2": ["iters"],
+    "functions_encoded": ["Params::check_collection_size", "Params::check_apply_rows_per_outer", "Params::note_emitted_row",
+                          "executor::plan_mid::estimate_range_len"],
+    "bounds": {"limits/observed": "all usize values", "range": "exact length for |start|,|end|<1000, |step|<50; unit steps and "
+               "panic-freedom on the full i64 range", "soft_timeout_ms": "0 (Instant not reached)"},
+    "stubs": [],
+    "assumptions": ["std Mutex is uncontended (single thread)"],
+    "outside_claim": ["which operators call the checks, time-limit behaviour, bounded extra work after the error"],
+    "level_text": "Bounded model checking (Kani/CBMC) of the limit arithmetic: a resource-limit error is returned iff the observed "
+                  "count exceeds the effective limit, the default-only relaxations apply only to the named stages under default "
+                  "configuration, the row counter saturates; estimate_range_len is exact on the stated ranges. Partial.",
+    "level_note": "Trusted: Kani/CBMC/CaDiCaL. Guard placement in operators is decided separately (E2 O3) or outside.",
+    "design_ref": "DESIGN.md section 3, C33",
+}
+
+PROPS["C25"] = {
+    "title": "Value and log encodings round-trip safely",
+    "kani": [("kani/api/lib.rs", r"^c25_"), ("kani/storage/wal.rs", r"^c25_")],
+    "e2": [],
+    "functions_encoded": ["nervusdb_api::PropertyValue::encode", "PropertyValue::decode", "PropertyValue::decode_recursive",
+                          "nervusdb_storage::wal::WalRecord::encode_body", "WalRecord::decode_body"],
+    "bounds": {"round trips": "Null, Bool, Int, Float (all 2^64 bit patterns incl. NaN payloads, -0.0), DateTime; String/Blob of "
+               "0,1,2 bytes (4 thorough); empty List/Map; List of 1 Int thorough; List [Int,Bool] attempted",
+               "decode inputs": "tag byte concrete 0..8, 9, 255; input length 0..10 (15 for list-of-one); embedded length/count field "
+               "in {0,1,2,3,2^31,2^32-1}; all other bytes symbolic", "unwind": "12-24"},
+    "stubs": ["O3 only: Vec::with_capacity replaced by a monitor asserting capacity <= input length (returns Vec::new())"],
+    "assumptions": ["strings are ASCII so symbolic bytes form valid UTF-8"],
+    "outside_claim": ["payloads longer than the stated sizes, nesting depth > 2 (stack exhaustion is not modelled by CBMC)",
+                      "PageWrite record contents"],
+    "level_text": "Bounded model checking (Kani/CBMC) of the real PropertyValue and WAL record codecs: decode(encode(v)) == v "
+                  "bit-exactly for the listed shapes; decode of any byte string of the listed lengths returns Ok/Err without "
+                  "panicking, slice overflow or arithmetic overflow; every Vec::with_capacity request is bounded by the input length.",
+    "level_note": "Trusted: Kani/CBMC/CaDiCaL and its std models. Bounded sizes as stated; larger inputs are outside the claim.",
+    "design_ref": "DESIGN.md section 3, C25",
+}
+PROPS["C18"] = {
+    "title": "Growing one structure never corrupts another",
+    "kani": [("kani/storage/idmap.rs", r"^c18_"), ("kani/storage/pager.rs", r"^c18_")],
+    "e2": [],
+    "functions_encoded": ["nervusdb_storage::idmap::i2e_location", "pager::Bitmap::{new,get_bit,set_bit,find_free_in_range}"],
+    "bounds": {"node ids": "all ids < 2^32, table start page in [2, 65536)", "bitmap": "real 8 KiB bitmap; symbolic 4-byte window "
+               "for set/get/find (bits 0..31), any single bit index < 65536 for set/get on a fresh bitmap", "unwind": "4-36"},
+    "stubs": [],
+    "assumptions": ["the node table owns exactly the one page apply_create_node_multi_label obtains from allocate_page (read from the code; "
+                    "E2 obligation O2 decides the call structure)"],
+    "outside_claim": ["blob chains, CSR pages, catalog/B-tree pages (they all allocate through allocate_page = O3)",
+                      "multi-step allocation histories through the real Pager (do not fit under Kani, DESIGN.md section 1)"],
+    "level_text": "Bounded model checking (Kani/CBMC) of node-table addressing and the allocator bitmap: records lie inside one page "
+                  "and never overlap; the allocator hands out the least free page >= 2 and set/get touch exactly one bit. The record "
+                  "page must be the page the allocator gave to the node table: holds for ids < 512, fails for ids >= 512 (recorded "
+                  "known finding: node records spill into pages owned by other structures).",
+    "level_note": "Trusted: Kani/CBMC/CaDiCaL. One inductive step per kernel; page ownership of other structures follows from the "
+                  "allocator obligations, not from running histories.",
+    "design_ref": "DESIGN.md section 3, C18",
+}
+_CSR_BOUNDS = {"segments": "edge-free shape (exactly as both builders emit it), one edge, two edges with the same source (attempt)",
+               "ids": "all u32 node ids / rel type ids", "unwind": "4-8"}
+PROPS["C05"] = {
+    "title": "Compaction and checkpoint are invisible",
+    "kani": [("kani/storage/csr.rs", r"^c05_")],
+    "e2": [],
+    "functions_encoded": ["nervusdb_storage::csr::CsrSegment::neighbors", "CsrSegment::incoming_neighbors", "CsrSegment::persist (reverse-index construction)"],
+    "bounds": _CSR_BOUNDS,
+    "stubs": ["thorough persist harnesses: csr::write_blob_pages, Pager::allocate_page, Pager::write_page replaced by no-op successes; "
+              "the Pager reference is never dereferenced"],
+    "assumptions": [],
+    "outside_claim": ["tombstones lost when runs are cleared, property sinking, overwrite across compactions, anything needing GraphEngine",
+                      "segments with more than 2 edges"],
+    "level_text": "Bounded model checking (Kani/CBMC) of the read kernels over compacted segments: for the segment shapes compaction "
+                  "produces with <= 1 edge (2 attempted), neighbors()/incoming_neighbors() never panic for any node id and return "
+                  "exactly the stored edges. Partial: segment read kernels only.",
+    "level_note": "Trusted: Kani/CBMC/CaDiCaL. Segment shapes are transcribed from build_segment_from_runs (HashSet-based, not runnable under Kani).",
+    "design_ref": "DESIGN.md section 3, C05",
+}
+PROPS["C30"] = dict(PROPS["C05"])
+PROPS["C30"].update({
+    "title": "Bulk load equals transactional load",
+    "level_text": "Bounded model checking (Kani/CBMC): the segment shapes BulkLoader::build_segments emits (edge-free; one edge) satisfy "
+                  "the same read-kernel obligations as compacted segments (no panic on any node id, incoming/outgoing exactly the "
+                  "stored edges after persist). Partial and thin: segment shape safety only.",
+    "outside_claim": ["labels, properties, statistics, WAL manifest, query equality between bulk-loaded and transactional databases"],
+    "design_ref": "DESIGN.md section 3, C30",
+})
+PROPS["C04"] = {
+    "title": "Reopen preserves logical content",
+    "kani": [("kani/storage/idmap.rs", r"^c04_")],
+    "e2": [],
+    "functions_encoded": ["nervusdb_storage::idmap::I2eRecord::{encode,decode}"],
+    "bounds": {"record": "all external ids, label ids, flags"},
+    "stubs": [],
+    "assumptions": [],
+    "outside_claim": ["WAL record order inside a commit, checkpoint-on-close, label interner replay, properties, relationships"],
+    "level_text": "Bounded model checking (Kani/CBMC) of node-table persistence: the persisted node record round-trips bit-exactly; "
+                  "(E2) the label list written at node creation equals the list rebuilt by IdMap::load. Partial: node-table persistence only.",
+    "level_note": "Trusted: Kani/CBMC/CaDiCaL.",
+    "design_ref": "DESIGN.md section 3, C04",
+}
+
+PROPS["C26"] = {
+    "title": "The on-disk B-tree behaves as a sorted multimap",
+    "kani": [("kani/storage/btree.rs", r"^c26_")],
+    "e2": [],
+    "functions_encoded": ["index::btree::Page::{leaf_lower_bound,leaf_insert_at,delete_from_leaf,internal_child_for_key,rebuild_leaf,"
+                          "rebuild_internal,leaf_cell_key_and_payload,internal_cell_key_and_right_child}", "BTree::delete",
+                          "write_varint_u32/read_varint_u32/varint_u32_len"],
+    "bounds": {"pages": "real 8 KiB page buffers", "layouts": "concrete 1-byte keys over {1,2,3,4,7}, <= 4 cells per leaf, two-level tree "
+               "with one separator", "probe": "symbolic 1-byte target key, symbolic u64 payloads", "varint": "all u32", "unwind": "7-8"},
+    "stubs": ["BTree::delete harnesses: Pager::read_page / Pager::write_page replaced by a one-page in-memory store; Pager never dereferenced"],
+    "assumptions": ["split shape = BTree::insert's split (left = e[..mid], right = e[mid..], separator = right[0].key), transcribed from the code"],
+    "outside_claim": ["multi-level trees, BTree::insert end-to-end through the pager, cursor advance across leaves, keys longer than 1 byte"],
+    "level_text": "Bounded model checking (Kani/CBMC) of the real B-tree page kernels on real page buffers: lower bound, insert at the "
+                  "lower bound (newest first among equal keys), delete of one cell, varint round trip, descent after a split, and "
+                  "BTree::delete on a single leaf. Partial: single-page and two-level kernels. Two recorded known findings: descent goes "
+                  "right of a separator whose equal keys remain in the left leaf; delete's (key,payload) binary search misses pairs "
+                  "when equal keys were inserted with increasing payloads.",
+    "level_note": "Trusted: Kani/CBMC/CaDiCaL. Key layouts are concrete; only the probe key/payloads are symbolic.",
+    "design_ref": "DESIGN.md section 3, C26",
+}
+
+PROPS["C22"] = {
+    "title": "Runtime errors are never swallowed",
+    "kani": [],
+    "e2": ["c22", "iters"],
+    "functions_encoded": ["executor::plan_tail::execute_distinct::{closure#0}", "execute_union::{closure#0}",
+                          "plan_iterators::FilterIter::next", "runtime_limits::RuntimeGuardIter::next"],
+    "bounds": {"input": "one item of the input stream, variant (Ok row / Err) symbolic", "models": "row key construction opaque; "
+               "HashSet::insert forks into {new key, seen key}"},
+    "stubs": ["Row::columns / iter / map / collect / join: opaque values (the key's content does not matter to the obligation)",
+              "HashSet::insert: both outcomes explored"],
+    "assumptions": ["Iterator::filter keeps an item iff the closure returns true (std)"],
+    "outside_claim": ["errors the evaluator itself maps to Null", "operators other than those listed in coverage.samples"],
+    "level_text": "Path-wise symbolic execution (z3) of the MIR of the DISTINCT and UNION filter closures: on every feasible path an Err "
+                  "input item is forwarded (closure returns true) and an Ok row is kept iff its key is new. Counterexamples are replayed "
+                  "through the public API (plain query raises, DISTINCT/UNION must raise too).",
+    "level_note": "Trusted: rustc's MIR dump (nightly), the translator in /verif/vf/e2 (unknown MIR => inconclusive), z3, std Iterator::filter.",
+    "design_ref": "DESIGN.md section 3, C22",
+}
+PROPS["C17"] = {
+    "title": "Any log tail is tolerated on open",
+    "kani": [("kani/storage/wal.rs", r"^c17_")],
+    "e2": ["c17"],
+    "functions_encoded": ["wal::WalReader::next_record", "wal::Wal::append", "wal::WalRecord::decode_body"],
+    "bounds": {"tail": "one record at the tail: length field, checksum field, body availability and checksum outcome symbolic",
+               "decode_body": "record type byte concrete (all 17 + unknown), body lengths around each type's size thresholds, embedded "
+               "length/count fields in {0,1,2,3,2^31,2^32-1}, all other bytes symbolic", "offset": "read offset <= 2^48"},
+    "stubs": ["try_read_u32 -> Some(fresh u32) | EOF | I/O fault; read_exact -> Ok | short read | I/O fault; crc32 -> uninterpreted u32; "
+              "decode_body -> Ok | Err (its panic-freedom is decided separately by Kani)"],
+    "assumptions": ["an I/O fault reported by the operating system may fail open (environment failure is outside the property)"],
+    "outside_claim": ["bit flips inside earlier records, filesystem reordering, PageWrite bodies (8 KiB) beyond the length check"],
+    "level_text": "Path-wise symbolic execution (z3) of WalReader::next_record and Wal::append over every tail shape, plus Kani/CBMC "
+                  "panic-freedom of decode_body per record type: no path may fail open without an I/O fault; Ok(Some) advances the offset "
+                  "by exactly 8+len; a new record must be written where recovery will look for it. Three recorded known findings "
+                  "(oversized length field, checksummed-but-undecodable tail such as zero fill, append behind a garbage tail).",
+    "level_note": "Trusted: rustc MIR dump, the E2 translator and its callee models (listed under stubs), z3, Kani/CBMC. Counterexamples are "
+                  "replayed by writing the concrete tail bytes after a committed log and calling Db::open.",
+    "design_ref": "DESIGN.md section 3, C17",
+}
+PROPS["C01"] = {
+    "title": "Acknowledged commits survive crashes",
+    "kani": [("kani/storage/wal.rs", r"^c25_o4_q_rt_")],
+    "e2": ["c17"],
+    "functions_encoded": ["wal::Wal::append", "wal::WalRecord::{encode_body,decode_body}"],
+    "bounds": {"append": "file length and last valid offset symbolic (<= 2^48)", "records": "fixed-size record variants, all field values"},
+    "stubs": ["file metadata/seek/write modelled as a position counter"],
+    "assumptions": [],
+    "outside_claim": ["fsync ordering, page-store durability, compaction/close I/O order, multi-round crash histories, engine-level recovery"],
+    "level_text": "Partial (log layer only): path-wise symbolic execution (z3) of Wal::append — an acknowledged record must be written "
+                  "where recovery reads next — and Kani/CBMC round trips of the fixed-size log records. Known finding: append position "
+                  "after a tolerated garbage tail.",
+    "level_note": "Trusted: rustc MIR dump, E2 translator and models, z3, Kani/CBMC. Whole-engine crash histories are outside this technique's reach here.",
+    "design_ref": "DESIGN.md section 3, C01",
+}
+
+PROPS["C02"] = {
+    "title": "Crash recovery yields a committed prefix",
+    "kani": [],
+    "e2": ["c02"],
+    "functions_encoded": ["wal::Wal::replay_committed_from_path"],
+    "bounds": {"records": "every record-kind sequence of <= 4 records (quick) / <= 6 (thorough) over {BeginTx(t), CommitTx(t), other op, end "
+               "of log, I/O fault}, txids symbolic in 1..3", "loop": "unrolled nrec+1 times; longer logs are cut and reported as paths_cut_by_bound"},
+    "stubs": ["WalReader::next_record -> the five outcomes above (its own behaviour on byte-level tails is C17)", "WalReader::open -> Ok | I/O fault",
+              "Vec / Option / mem::take modelled structurally"],
+    "assumptions": ["record-granular view of the log (byte-granular cuts inside a record are C17-O1/O2)"],
+    "outside_claim": ["node-table/page updates after the log commit, compaction, power loss (unsynced bytes), index pages written before the commit record",
+                      "engine-level replay (scan_recovery_state / replay_graph_transactions)"],
+    "level_text": "Partial (log bracketing): path-wise symbolic execution (z3) of Wal::replay_committed_from_path against a reference "
+                  "bracket parser on the same symbolic record sequence: the returned list is exactly the completely bracketed transactions "
+                  "in log order with their own ops, an unfinished bracket never leaks ops, well-bracketed logs never fail.",
+    "level_note": "Trusted: rustc MIR dump, E2 translator and container models, z3. Oracle: the bracket parser in vf/e2/targets/c02.py.",
+    "design_ref": "DESIGN.md section 3, C02",
+}
+
+PROPS["C32"] = {
+    "title": "Node identities are unique and allocation never fails",
+    "kani": [],
+    "e2": ["c32"],
+    "functions_encoded": ["executor::create_delete_ops::execute_create_from_rows (external-id expression, entered arm-locally at Utc::now())"],
+    "bounds": {"evaluations": "two evaluations of the id expression; counters < 2^31, clock readings in [0, 2^62) ns",
+               "scenarios": "same statement / monotone clock; two statements / monotone clock; one statement / clock stepping back"},
+    "stubs": ["Utc::now() + timestamp_nanos_opt() = fresh symbolic i64 (the symbolic clock), or None (out-of-range clock)"],
+    "assumptions": ["ids are compared as u64 values; create_node rejects a duplicate external id (read from IdMap::apply_create_node_multi_label)"],
+    "outside_claim": ["internal id density, identity stability across compaction/reopen, MERGE/bulk-load id sources"],
+    "level_text": "Partial: path-wise symbolic execution (z3) of the id expression with the clock as a symbolic variable: within one "
+                  "statement and a monotone clock ids strictly increase (holds); across statements, or with a clock that steps back, "
+                  "two nodes can get the same id (recorded known finding, replayed natively under a scripted wall clock).",
+    "level_note": "Trusted: rustc MIR dump, E2 translator, z3; the LD_PRELOAD clock shim used for replay replaces only CLOCK_REALTIME.",
+    "design_ref": "DESIGN.md section 3, C32",
+}
+
+PROPS["C19"] = {
+    "title": "WHERE partitions rows by truth value",
+    "kani": [],
+    "e2": ["iters"],
+    "functions_encoded": ["plan_iterators::FilterIter::next", "evaluator::evaluate_expression_bool"],
+    "bounds": {"stream": "every input prefix of <= 3 items (quick) / 5 (thorough), each item Ok(row) | Err | end of stream",
+               "predicate": "evaluator result modelled as a fresh Value: Bool(b) with symbolic b, Null, Int, String"},
+    "stubs": ["inner Iterator::next -> symbolic stream; ensure_runtime_expression_compatible -> Ok | Err; evaluate_expression_bool -> true | other "
+              "(its own body is decided separately: true iff the value is exactly Bool(true))"],
+    "assumptions": ["the three queries (p, NOT p, p IS NULL) evaluate p deterministically on the same row"],
+    "outside_claim": ["filter push-down into match/index plans, OPTIONAL MATCH fix-up, the truth tables of NOT / IS NULL themselves"],
+    "level_text": "Partial and thin: path-wise symbolic execution (z3) of the filter operator kernel over a symbolic input stream: a row "
+                  "is emitted iff it is the next Ok row whose predicate value is exactly Bool(true); Err items and compatibility errors are "
+                  "forwarded; no row is emitted twice, reordered or skipped for another reason; None only at end of input.",
+    "level_note": "Trusted: rustc MIR dump, E2 translator and stream model, z3.",
+    "design_ref": "DESIGN.md section 3, C19",
+}
